@@ -57,7 +57,9 @@ def check_library(ctx, rng, n, big_path, big_bytes):
             child = dict(spawn=True, out=out, err=err, ok_full=code == 0, ok_early=code == 0)
         elif kind == "noisy":
             k = rng.choice([70000, 300000, 2000000])
-            script = "head -c %d /dev/zero | tr '\\000' e >&2; printf %s; exit %d" % (k, sh_quote_bytes(out), code)
+            # a command whose writes to stderr fail does not succeed (as any ordinary program would not)
+            script = "head -c %d /dev/zero | tr '\\000' e >&2 || exit 97; printf %s; exit %d" % (
+                k, sh_quote_bytes(out), code)
             child = dict(spawn=True, out=out, err=b"e" * k, ok_full=code == 0, ok_early=code == 0)
         elif kind == "bigcat":
             want = rng.choice([1, 4096]) if limit else 4096
@@ -137,8 +139,13 @@ def gen_pre_case(rng, big_path):
                        "fail_after_silent", "missing", "notexec", "big", "big_noisy", "binary"])
     flag = rng.choice([None, None, "-m1", "-q", "-l", "-c"])
     code = rng.choice([1, 2, 3, 127, 255])
+    when = rng.choice(["before", "while", "after"])
+    if kind == "noisy_ok" and when != "before" and flag in ("-m1", "-q", "-l"):
+        # cut short while it still has stdout and stderr to write: that is the listed class EarlyStopWithStderrOutput,
+        # and whether it fails depends on timing — not generated
+        flag = None
     return dict(kind=kind, content=content, flag=flag, code=code, threads=rng.choice([1, 1, 3]),
-                stderr_kb=rng.choice([1, 64, 200, 1024, 4096]))
+                stderr_kb=rng.choice([1, 64, 200, 1024, 4096]), when=when)
 
 
 def pre_script_and_child(c, big_bytes):
@@ -153,9 +160,20 @@ def pre_script_and_child(c, big_bytes):
         return 'sed "s/^/hit-tag:/" "$1"', dict(spawn=True, out=b"".join(b"hit-tag:" + l + b"\n" for l in content.split(b"\n")[:-1]),
                                                 err=b"", ok_full=True, ok_early=True)
     if k == "noisy_ok":
+        # a successful command that writes a lot to stderr before, while or after writing its stdout; like any
+        # ordinary program it fails (exit 98) if a write to stderr fails
         n = c["stderr_kb"] * 1024
-        return 'head -c %d /dev/zero | tr "\\000" w >&2; cat "$1"' % n, dict(spawn=True, out=content, err=b"w" * n,
-                                                                              ok_full=True, ok_early=True)
+        noise = 'head -c %d /dev/zero | tr "\\000" w >&2 || exit 98' % n
+        half = 'head -c %d /dev/zero | tr "\\000" w >&2 || exit 98' % (n // 2)
+        when = c.get("when", "before")
+        if when == "before":
+            script = noise + '; cat "$1"'
+        elif when == "after":
+            script = 'cat "$1"; ' + noise
+        else:
+            k1 = len(content) // 2
+            script = '%s; head -c %d "$1"; %s; tail -c +%d "$1"' % (half, k1, half, k1 + 1)
+        return script, dict(spawn=True, out=content, err=b"w" * n, ok_full=True, ok_early=True)
     if k == "fail_before":
         return 'echo broken >&2; exit %d' % c["code"], dict(spawn=True, out=b"", err=b"broken\n", ok_full=False, ok_early=False)
     if k == "fail_during":
@@ -191,7 +209,12 @@ def check_pre(ctx, rng, n, big_path, big_bytes):
              dict(kind="fail_after_silent", content=b"a hit\n", flag="-m1", code=3, threads=1, stderr_kb=1),
              dict(kind="fail_after_silent", content=b"a hit\n", flag=None, code=3, threads=1, stderr_kb=1),
              dict(kind="fail_after", content=b"a hit\n", flag="-q", code=255, threads=1, stderr_kb=1),
-             dict(kind="noisy_ok", content=b"a hit\n", flag=None, code=0, threads=1, stderr_kb=4096),
+             dict(kind="noisy_ok", content=b"a hit\n", flag=None, code=0, threads=1, stderr_kb=4096, when="before"),
+             dict(kind="noisy_ok", content=b"a hit\nb\nc hit\n", flag=None, code=0, threads=1, stderr_kb=200, when="before"),
+             dict(kind="noisy_ok", content=b"a hit\nb\nc hit\n", flag=None, code=0, threads=1, stderr_kb=200, when="while"),
+             dict(kind="noisy_ok", content=b"a hit\nb\nc hit\n", flag="-c", code=0, threads=3, stderr_kb=200, when="after"),
+             dict(kind="noisy_ok", content=b"a hit\nb\nc hit\n", flag=None, code=0, threads=1, stderr_kb=2048, when="while"),
+             dict(kind="noisy_ok", content=b"a hit\nb\nc hit\n", flag=None, code=0, threads=1, stderr_kb=2048, when="after"),
              dict(kind="missing", content=b"a hit\n", flag=None, code=0, threads=3, stderr_kb=1)] + cases
     jobs = []
     for i, c in enumerate(cases):
@@ -251,7 +274,8 @@ def check_pre(ctx, rng, n, big_path, big_bytes):
     mo = vlib.model(1801, mlines)
     stat = ctx.cov.setdefault("pre_kinds", {})
     for c, (r, ref), ml, m in zip(cases, res, mlines, mo):
-        key = "%s/%s" % (c["kind"], c["flag"])
+        key = "%s/%s" % (c["kind"] + ("-" + c.get("when", "") + "-%dK" % c["stderr_kb"] if c["kind"] == "noisy_ok" else ""),
+                         c["flag"])
         stat[key] = stat.get(key, 0) + 1
         ctx.note_case(repr((c["kind"], c["flag"], c["content"], c["code"])), c["kind"] != "echo")
         replay = dict(kind="pre", case={k: (repr(v) if isinstance(v, bytes) else v) for k, v in c.items()
